@@ -85,8 +85,16 @@ func (p *regExpParser) scanGroup() {
 		if str[0] == '?' {
 			if str[1] == '=' || str[1] == '!' {
 				p.error(-1, "re2: Invalid (%s) <lookahead>", p.str[p.chrOffset:p.chrOffset+2])
+			} else if str[1] != ':' {
+				// (?i) (?s) (?P<name> ... are re2 syntax, not ECMAScript (15.10.1):
+				// passing them on would change the meaning of the pattern.
+				p.error(-1, "Invalid group")
+				p.invalid = true
 			}
 		}
+	} else if len(str) == 1 && str[0] == '?' {
+		p.error(-1, "Invalid group")
+		p.invalid = true
 	}
 	for p.chr != -1 && p.chr != ')' {
 		switch p.chr {
